@@ -38,6 +38,7 @@ declare -A ALSO=(
   [C17-prune-skip-object-resolution-shadowed-arg]="C19"
   [C08-deferred-fieldset-window-overwrites-next-key]="C13"
   [C15-last-parameter-mutator-wins]="C03"
+  [C04-adderror-returns-early-on-done-context]="C06"
 )
 echo "# Seeded changes vs. the checks ($tier tier, $(date -u +%FT%TZ), /repo $(git -C /repo log --format=%h -1))" > $out
 echo >> $out
